@@ -86,6 +86,16 @@ def c13(run: Run):
     rules_c13.check(run, program(run))
 
 
+def c17(run: Run):
+    from . import rules_c17
+    rules_c17.check(run, program(run), cyprogram(run), sites(run))
+
+
+def c18(run: Run):
+    from . import rules_c18
+    rules_c18.check(run, program(run), cyprogram(run), sites(run))
+
+
 def c16(run: Run):
     from . import rules_c16
     rules_c16.check(run, program(run))
@@ -125,5 +135,7 @@ CHECKS = {
     "C14": c14,
     "C15": c15,
     "C16": c16,
+    "C17": c17,
+    "C18": c18,
     "C19": c19,
 }
